@@ -1,6 +1,6 @@
 (* C08 — trapezoidal local grid (plain and modified basis): count, inside, weight sum, degree-1 exactness.
    All statements hold for every number of intervals n = m+1 >= 1 (npwb = m+2), hence for every level. *)
-From Coq Require Import ZArith List QArith Qcanon Bool Arith Lia Lra.
+From Coq Require Import ZArith List QArith Qcanon Bool Arith Lia Lqa.
 From SG Require Import Base.QcUtil Model.Tensor Model.LocalGrids Proofs.TensorRule Proofs.LocalGridsBase.
 Import ListNotations.
 Open Scope Qc_scope.
